@@ -31,7 +31,8 @@ class P(Prop):
                 "C11_system_split", "C11_system_permute", "C11_system_scale", "C11_system_single_point", "C11_system_duration"]
     MAKE_TARGETS = ["theories/Props/C11.vo", "theories/Check/Check_C11.vo", "theories/Check/Check_C01.vo"]
     CHECK_REQUIRE = ("From Coq Require Import QArith List Bool.\nFrom Feems Require Import Base.Num Model.FuelRecord Model.Result "
-                     "Model.SysResult Model.Bus Model.ElecBalance Model.Plant Check.Check_C01 Check.Check_C18 Check.Check_C19 Check.Check_C11.\nOpen Scope Q_scope.")
+                     "Model.SysResult Model.Bus Model.ElecBalance Model.Plant Check.Check_C01 Check.Check_C18 Check.Check_C19 Check.Check_C11.\n"
+                     "From Feems Require Import Base.Pchip.\nOpen Scope Q_scope.")
     RULE = ("electric plants (1-3 switchboards with breaker and status changes inside the series, numeric 0/1 breaker status "
             "arrays in half of the cases) and mechanical plants, series of 2-6 steps with irregular intervals: the whole run on one "
             "object; every two-way split, the single steps, a permutation of the steps and a rescaling of the intervals on FRESH "
@@ -68,15 +69,21 @@ class P(Prop):
             # the whole calculation (balance -> engine power -> fuel, running hours) is a rational function the model evaluates
             if kind == "electric" and rng.random() < 0.5:
                 import plantgen as pg
+                curves = rng.random() < 0.5       # multi-point generator-efficiency and specific-consumption curves
                 for d in c["plant"]["comps"]:
                     if pg.kind_of(d["cls"]) == "Source":
-                        d["cls"] = rng.choice(["genset", "genset", "genset_rect"])
+                        d["cls"] = "genset" if curves else rng.choice(["genset", "genset", "genset_rect"])
                         d["eff"] = [Fraction(rng.randint(56, 64), 64)]
                         d["rect_eff"] = [Fraction(rng.randint(60, 64), 64)]
                         d["engine"] = {"rated": Fraction(d["rated"]) * 2, "bsfc": [Fraction(rng.randint(160, 240))],
                                        "fuel": rng.choice(["DIESEL", "DIESEL", "HFO"])}
+                        if curves:
+                            loads = sorted(rng.sample([Fraction(k, 8) for k in range(1, 9)], rng.randint(2, 4)))
+                            d["eff"] = [[l, v] for l, v in zip(loads, sorted(Fraction(rng.randint(52, 63), 64) for _ in loads))]
+                            bl = sorted(rng.sample([Fraction(k, 8) for k in range(1, 9)], rng.randint(2, 4)))
+                            d["engine"]["bsfc"] = [[l, Fraction(rng.randint(170, 250))] for l in bl]
                         d.pop("fc", None); d.pop("cogas", None)
-                c["e2e"] = True
+                c["e2e"] = "curves" if curves else True
             c["split"] = rng.randint(1, n - 1)
             # a periodic breaker schedule (two configurations A and B alternating, held for irregular numbers of steps), cut at
             # a period boundary: both parts run through the same sequence of configurations at different steps
@@ -166,7 +173,9 @@ class P(Prop):
                 e2e = {"pin": [[float(x) for x in np.atleast_1d(o.power_input)] if pg.kind_of(d["cls"]) == "Consumer" else []
                                for d, o in zip(case["plant"]["comps"], objs_)],
                        "rated": [float(o.rated_power) for o in objs_],
-                       "fuel": float(res_.fuel_consumption_total_kg), "hours": float(res_.running_hours_genset_total_hr)}
+                       "fuel": float(res_.fuel_consumption_total_kg), "hours": float(res_.running_hours_genset_total_hr),
+                       "min_source_output": min([float(np.min(o.power_output)) for d, o in zip(case["plant"]["comps"], objs_)
+                                                 if pg.kind_of(d["cls"]) == "Source"] or [0.0])}
             flat = whole["scalars"] + whole["co2"] + [m for _, m in whole["fuel"]]
             if any(isinstance(x, float) and (math.isnan(x) or math.isinf(x)) for x in flat):
                 return {"rejected": "non-finite: a bus without balancing capacity"}
@@ -196,6 +205,20 @@ class P(Prop):
             e, plant, inp = obs["e2e"], case["plant"], case["inp"]
             for d, r in zip(plant["comps"], e["rated"]):
                 d["rated_obs"] = Fraction(r)
+            if case["e2e"] == "curves":
+                from props.C06 import coq_curve
+                gl = []
+                for d in plant["comps"]:
+                    if d["cls"] == "genset":
+                        gl.append(f"mk_genset {core.coq_q(d['rated_obs'])} {coq_curve(d['eff'])} {core.coq_q(d['engine']['rated'])} {coq_curve(d['engine']['bsfc'])}")
+                    else:
+                        gl.append("None")
+                sts = coq_sts(plant, inp) if plant["breakers"] else core.coq_list(["[]" for _ in range(inp["n"])])
+                t2 = (f"check_run_curves [{coq_plant(plant, inp, e['pin'])[1:-1]}]\n  {core.coq_edges(plant['breakers'])} {core.coq_nat_list(plant['swbs'])} {sts} "
+                      f"{core.coq_q_list(inp['dt'])} {core.coq_list(gl)} {core.coq_fl(e['fuel'])}")
+                for d in plant["comps"]:
+                    d.pop("rated_obs", None)
+                return f"({t} && {t2})%bool"
             cs, cn, gs = [], [], []
             for d in plant["comps"]:
                 if d["cls"] in ("genset", "genset_rect"):
@@ -266,7 +289,9 @@ class P(Prop):
         if case.get("periodic_breaker_schedule"):
             t.append("periodic-breaker-schedule-cut-at-a-period-boundary")
         if obs.get("e2e"):
-            t.append("end-to-end: plant inputs -> fuel and genset hours evaluated by the model")
+            t.append("end-to-end: plant inputs -> fuel and genset hours evaluated by the model" + (" (multi-point curves)" if case.get("e2e") == "curves" else ""))
+            if case.get("e2e") == "curves":
+                t.append("end-to-end (curves): " + ("compared" if obs["e2e"]["min_source_output"] >= 0 else "outside (a genset pushed below zero)"))
         if case.get("swap_step"):
             t.append("one-breaker-opens-while-another-closes(constructed)")
         if case.get("matrix_api"):
